@@ -66,7 +66,7 @@ def case_payload(c: Case, impl: Optional[Trace], model: Optional[Trace], extra: 
         'grammar_def': grammar_to_json(c.g),
         'grammar': c.g.proto_lines(),
         'grammar_cpp': [f"n{nid}: {nd.cpp} [{nd.flavour}]" for nid, nd in sorted(c.g.nodes.items())],
-        'config': {k: getattr(c.cfg, k) for k in ('root', 'a', 'm', 'eol', 'lazy', 'unwind', 'fam', 'tree')},
+        'config': {k: getattr(c.cfg, k) for k in ('root', 'a', 'm', 'eol', 'lazy', 'unwind', 'fam', 'tree', 'mi')},
         'init': list(c.init),
         'input_hex': c.data.hex(),
         'observed': {'events': impl.events, 'result': impl.result, 'o': impl.o, 'tree': impl.tree} if impl else None,
